@@ -19,7 +19,7 @@ PROP = dict(
               "keeper functions) + vm_compute monitors and correspondence against the real message router",
     modelled=[
         "x/coinswap/keeper/msg_server.go UpdateParams; x/coinswap/types/params.go Validate + field validators",
-        "x/inflation/keeper/msg_server.go UpdateParams; x/inflation/types/params.go",
+        "x/inflation/keeper/msg_server.go UpdateParams; x/inflation/types/params.go (incl. provisionComputable: the worst-case evaluation of CalculateEpochMintProvision + TruncateInt, modelled with Model/Inflation.v calc_provision)",
         "x/csr/keeper/msg_server.go UpdateParams; x/csr/types/params.go",
         "x/onboarding/keeper/msg_server.go UpdateParams; x/onboarding/types/params.go",
         "x/erc20/keeper/msg_server.go UpdateParams/RegisterCoinProposal/RegisterERC20Proposal/ToggleTokenConversionProposal (authority gate); x/erc20/types/params.go",
